@@ -1188,6 +1188,9 @@ def _kthlist_parse(inputfile):
                 "Vertex ID out of range [1,{}] at line {}.".format(size, i))
         yield left, right, i
 
+    if size < 0:
+        raise ValueError("Missing number of vertices.")
+
 
 def _read_bipartite_kthlist(inputfile):
     """Read a bipartite graph from file, in the KTH reverse adjacency lists format.
